@@ -3,6 +3,7 @@
 //! kind 7: which_method(0..2) option_mask(9 bits) payload_class
 //! kind 8: payload_class b64false detached
 use crate::common::*;
+use identity_core::convert::FromJson;
 use identity_core::common::{Object, Url};
 use identity_did::DID;
 use identity_document::document::CoreDocument;
@@ -40,7 +41,7 @@ fn options(mask: i64) -> JwsSignatureOptions {
   if mask & 32 != 0 { o = o.nonce("nonce-1"); }
   if mask & 64 != 0 { o = o.kid("custom-kid"); }
   if mask & 128 != 0 { o = o.detached_payload(true); }
-  if mask & 256 != 0 { let mut m = Object::new(); m.insert("x-param".into(), serde_json::json!({"a": [1, 2]})); o = o.custom_header_parameters(m); }
+  if mask & 256 != 0 { let mut m = Object::new(); m.insert("x-a".into(), serde_json::json!({"a": [1, 2]})); o = o.custom_header_parameters(m); }
   o
 }
 
@@ -54,7 +55,7 @@ pub fn exec(case: &[i64]) -> Outcome {
       Ok(j) => j,
       Err(_) => { // the encoder may refuse (b64=false with a payload outside the compact character set)
         let refusable = mask & 2 != 0 && mask & 128 == 0;
-        let o = Outcome::new(vec![]).class("create-refused").trivial();
+        let o = Outcome::new(vec![0]).class("create-refused");
         return if refusable { o } else { o.fail("create_jws failed for a valid option set") };
       }
     };
@@ -65,7 +66,11 @@ pub fn exec(case: &[i64]) -> Outcome {
     let signed_form: Vec<u8> = if b64 { encode_b64(payload).into_bytes() } else { payload.to_vec() };
     let det: Option<&[u8]> = if mask & 128 != 0 { Some(&signed_form) } else { None };
     let base = || { let mut v = JwsVerificationOptions::new(); if mask & 32 != 0 { v = v.nonce("nonce-1"); } if mask & 64 != 0 { v = v.method_id(own_id.clone()); } v };
-    let mut o = Outcome::new(vec![]).class("storage");
+    // the protected header as the decoder's header type reads it: which parameters the options put there
+    let mut obs = vec![1];
+    let hdr_seg = jws.as_str().split('.').next().unwrap_or("");
+    match identity_jose::jwu::decode_b64(hdr_seg).ok().and_then(|b| identity_jose::jws::JwsHeader::from_json_slice(&b).ok()) { Some(h) => crate::c11::put_hdr(&mut obs, Some(&crate::jws::describe_fields_pub(&h))), None => obs.push(-6) }
+    let mut o = Outcome::new(obs).class("storage");
     // (1) verifies for the method it was produced for, with and without its own scope
     for scoped in [false, true] {
       let mut v = base(); if scoped { v = v.method_scope(SCOPES[which]); }
@@ -121,13 +126,14 @@ pub fn exec_bitflip(case: &[i64]) -> Outcome {
   })
 }
 
+fn case7(which: i64, mask: i64, pc: i64) -> Vec<i64> { let mut c = vec![7, which, mask, pc]; put_bytes(&mut c, PAYLOADS[pc as usize]); c }
 pub fn gen_bitflips(rng: &mut Rng, thorough: bool, sink: &mut Sink) {
   for pc in 0..PAYLOADS.len() as i64 { for b in 0..2 { for d in 0..2 { if thorough || (pc + b + d) % 3 == 0 { sink.case(vec![8, pc, b, d], "bitflip-sweep"); } } } }
   if thorough { for _ in 0..60 { sink.case(vec![8, rng.range(0, PAYLOADS.len() as i64 - 1), rng.range(0, 1), rng.range(0, 1)], "bitflip-sweep"); } }
 }
 pub fn gen_storage(rng: &mut Rng, thorough: bool, sink: &mut Sink) {
   // all 2^9 option sets x 3 methods for one payload; the other payload classes on a sample
-  for mask in 0..512 { for which in 0..3 { sink.case(vec![7, which, mask, (mask % PAYLOADS.len() as i64)], "storage-options"); } }
+  for mask in 0..512 { for which in 0..3 { sink.case(case7(which, mask, mask % PAYLOADS.len() as i64), "storage-options"); } }
   let n = if thorough { 6000 } else { 600 };
-  for _ in 0..n { sink.case(vec![7, rng.range(0, 2), rng.range(0, 511), rng.range(0, PAYLOADS.len() as i64 - 1)], "storage-random"); }
+  for _ in 0..n { sink.case(case7(rng.range(0, 2), rng.range(0, 511), rng.range(0, PAYLOADS.len() as i64 - 1)), "storage-random"); }
 }
